@@ -461,6 +461,7 @@ class Translator:
         t.cut_hit = []
         t.yk_lines = {}
         t.calls = {}
+        t.addr_taken = set()
         t.frames = []
         t.hooky_co = set()
         t.co_used = set()
@@ -481,6 +482,8 @@ class Translator:
         if tok[0] == '@':
             t.used.add(tok)
             if tok in m.defs or tok in m.decls:
+                if tok in m.defs:
+                    t.addr_taken.add(tok)
                 cr = t.opts.get('coroutines') or []
                 if t.opts.get('nested_coroutines') and raw(tok) in cr:
                     return '((uint8_t*)&T%d_f_%s)' % (list(cr).index(raw(tok)), san(tok))
@@ -1473,7 +1476,7 @@ def translate(text, roots, opts=None):
                 continue
             seen.add(g)
             stack.extend(t.calls.get(g, ()))
-    info = dict(recursive=sorted('f_' + san(x) for x in rec), functions=sorted(raw(x) for x in done_names if x in mod.defs),
+    info = dict(recursive=sorted('f_' + san(x) for x in rec), address_taken=sorted('f_' + san(x) for x in t.addr_taken), functions=sorted(raw(x) for x in done_names if x in mod.defs),
                 coroutine_clones=sorted('%s%s' % (k[1], raw(k[0])) for k in done if k[1]), atomic_callees=sorted(atomic_callees),
                 externals=sorted(raw(x) for x in done_names if x in mod.decls and x not in mod.defs),
                 missing=sorted(set(missing)), loops=loops, cuts=t.cut_hit,
